@@ -44,6 +44,9 @@ func queuesOf(p framework.Plugin) map[common_info.QueueID]*rs.QueueAttributes {
 	return nil
 }
 
+// QueuesOf is queuesOf for other packages.
+func QueuesOf(p framework.Plugin) map[common_info.QueueID]*rs.QueueAttributes { return queuesOf(p) }
+
 func isReservation(p *v1.Pod) bool { return p.Labels["app"] == "kai-resource-reservation" }
 
 // acc mirrors what a pod charges to a node outside shared GPUs (cpu, memory, whole gpus, scalars).
